@@ -40,6 +40,9 @@ Definition aidx (t : tab) (a : Q) : Z :=
   | SpDisc _ => Qfloor a
   | SpBox _ (Fin lo) (Fin hi) =>
       Z.max 0 (Z.min (tNA t - 1) (Qfloor ((a - lo) * inject_Z (tNA t) / (hi - lo))))
+  (* half-bounded boxes (one finite bound): clip(floor(a - bound), 0, NA-1) resp. clip(floor(bound - a), 0, NA-1) *)
+  | SpBox _ (Fin lo) _ => Z.max 0 (Z.min (tNA t - 1) (Qfloor (a - lo)))
+  | SpBox _ _ (Fin hi) => Z.max 0 (Z.min (tNA t - 1) (Qfloor (hi - a)))
   | _ => 0%Z
   end.
 
